@@ -501,7 +501,7 @@ func worker(spec, partial string) {
 			r.Add("cases:"+pass.backend, 1)
 			s.judge(idx, c, o)
 
-			if pass.backend == "memdb" && (idx < 2 || (c.Pos > 0 && len(c.Ops) > 1 && idx%9973 == i)) {
+			if pass.backend == "memdb" && (idx < 2 || (c.Pos > 0 && len(c.Ops) > 1 && idx%1009 == 7)) {
 				r.Sample(map[string]any{"case": c.name(), "mechanism": c.Mech, "failure_position": c.Pos, "status": o.Status, "all_applied_possible": o.AllApplied != ""})
 			}
 		})
